@@ -551,10 +551,21 @@ fn id_point<N: Fld>(p: &IdPt) -> Outcome {
                 break;
             }
             // definite integrals between consecutive points, additivity through the next one; the first 9 triples
-            // use special end points instead (exactly 0 at either end, equal bounds, reversed order, +-1)
+            // use special end points instead (exactly 0 at either end, equal bounds, reversed order, +-1), the next 5
+            // (complex field) complex end points in special position
             if j + 2 < pts.len() {
                 let sp = [0.0, 1.0, -1.0, 0.5];
-                let (a_, m_, b_) = if j < 9 { (C::new(sp[j % 4] * (1 - (j / 4) as i32 % 2 * 2) as f64 * if j >= 8 { 0.0 } else { 1.0 }, 0.0), C::new(sp[(j + 1) % 4], 0.0), C::new(sp[(j + 2 + j / 4) % 4], 0.0)) } else { (pts[j], pts[j + 1], pts[j + 2]) };
+                let (a_, m_, b_) = if j < 9 { (C::new(sp[j % 4] * (1 - (j / 4) as i32 % 2 * 2) as f64 * if j >= 8 { 0.0 } else { 1.0 }, 0.0), C::new(sp[(j + 1) % 4], 0.0), C::new(sp[(j + 2 + j / 4) % 4], 0.0)) } else if N::COMPLEX && j < 14 {
+                    // complex end points in special position: equal real parts, equal imaginary parts, conjugates,
+                    // opposite points, points of modulus exactly 1
+                    [
+                        (C::new(0.0, 0.0), C::new(0.0, 1.0), C::new(1.0, 1.0)),
+                        (C::new(0.5, 0.0), C::new(0.5, 1.0), C::new(1.0, 1.0)),
+                        (C::new(0.0, 1.0), C::new(1.0, 1.0), C::new(2.0, 1.0)),
+                        (C::new(0.6, 0.8), C::new(0.6, -0.8), C::new(-0.6, -0.8)),
+                        (C::new(0.0, 1.0), C::new(0.0, -1.0), C::new(-1.5, 0.25)),
+                    ][j - 9]
+                } else { (pts[j], pts[j + 1], pts[j + 2]) };
                 let a0: Vec<C> = std::iter::once(C::new(0.0, 0.0)).chain((0..n).map(|k| c[k] / (k + 1) as f64)).collect();
                 let itol = 4.0 * (n + 1) as f64 * EPS * (cond_sum(&a0, a_) + cond_sum(&a0, b_) + cond_sum(&a0, m_)) + 1e-300;
                 let iab = poly.integrate(N::from_c(a_), N::from_c(b_)).to_c();
